@@ -3,7 +3,7 @@
    The claim is PARTIAL: the heap model (Heap.v) abstracts CPython object semantics. *)
 From Coq Require Import ZArith List Bool.
 Import ListNotations.
-Require Import PyBase Heap HeapFacts HeapFrame HeapCopy HeapSim HeapHistory HeapOps HeapLinkerSim HeapProtect HeapLinkerCopySim HeapLinkerInit HeapExamples.
+Require Import PyBase Heap HeapFacts HeapFrame HeapCopy HeapSim HeapHistory HeapOps HeapLinkerSim HeapProtect HeapLinkerCopySim HeapLinkerInit HeapForest HeapExamples.
 Open Scope Z_scope.
 
 (* copy.deepcopy creates only new objects: the old heap is a prefix of the new one, the result refers to new objects only *)
@@ -275,6 +275,45 @@ Theorem C11_copy_of_traced_model_stays_equal :
   nth 2 (root_views s2 6) CCut = nth 1 (root_views s2 6) CCut.
 Proof. exact ex_copy_of_traced_model_stays_equal. Qed.
 
+(* ---------------- no internal aliasing arises from the modelled operations (restatement after fix cfb58ac of the former witness
+   "copy() drops the alias Trace.names is model.names").  forest N h: every object is referred to from at most one cell of the
+   objects at or above N (N = the objects that existed before the first instance: the class region, where CHECK usually IS
+   ENDOGENOUS, is left out) *)
+(* every operation except the explicit user aliasing (m.mine = m.names) uses only scalars and freshly created objects as sources,
+   on any heap - trace_t in every mode included *)
+Theorem C11_operations_use_fresh_sources K h r o :
+  (match o with OAliasAttr _ _ => false | _ => true end) = true ->
+  forallb (fun a => match act_src a with
+                    | Some (SScalar _) | Some (SFresh _ _) | None => true
+                    | Some _ => false end) (compile_op K h r o) = true.
+Proof. exact (compile_op_fresh K h r o). Qed.
+
+(* in a forest an unreferenced object has exactly ONE path to everything it reaches: no two __dict__ entries (nor anything below
+   them) lead to a common object, so the entry-by-entry deep copy drops nothing *)
+Theorem C11_forest_has_unique_paths N h r :
+  forest N h -> closed_above N h -> (N <= r)%nat -> orphan N h r ->
+  forall p q l, resolve h r p = Some l -> resolve h r q = Some l -> p = q.
+Proof. exact (forest_unique_paths N h r). Qed.
+
+(* ALL histories of such operations on an instance keep the forest, and the instance keeps unique paths *)
+Theorem C11_operations_create_no_internal_alias K N i os s r :
+  nth_error (sroots s) i = Some r -> (N <= r < length (sh s))%nat ->
+  wf (sh s) -> closed_above N (sh s) -> forest N (sh s) -> orphan N (sh s) r -> forallb op_fresh os = true ->
+  forall p q l, resolve (sh (run_hevent K s (HOps i os))) r p = Some l ->
+                resolve (sh (run_hevent K s (HOps i os))) r q = Some l -> p = q.
+Proof. exact (ops_create_no_internal_alias K N i os s r). Qed.
+
+(* ... hypotheses satisfiable (a traced instance of a class whose CHECK is its ENDOGENOUS list; traced solves in every mode,
+   add_variable, list edits); and, observed on the instance only (NOT proved in general: what remains is the forest through
+   deepcopy), copy() under either memo policy and instantiation keep the forest and the two policies give the same states *)
+Theorem C11_no_internal_alias_example :
+  (nth_error (sroots s_tr) 1 = Some 5%nat /\ (5 <= 5 < length (sh s_tr))%nat /\ wf (sh s_tr) /\ closed_above 5 (sh s_tr) /\
+   forest 5 (sh s_tr) /\ orphan 5 (sh s_tr) 5%nat /\ forallb op_fresh forest_ops = true /\ forestb 0 (sh s_tr) = false) /\
+  (let s1 := run_hevents K0 s_tr [HOps 1 forest_ops; HEv (ECopy 1); HEv (EInit 0 (args list_span)); HOps 2 forest_ops] in
+   let s2 := run_hevents K1 s_tr [HOps 1 forest_ops; HEv (ECopy 1); HEv (EInit 0 (args list_span)); HOps 2 forest_ops] in
+   forestb 5 (sh s1) = true /\ forestb 5 (sh s2) = true /\ root_views s1 7 = root_views s2 7).
+Proof. exact (conj ex_forest_hypotheses ex_forest_through_copy_and_init). Qed.
+
 (* both memo policies of copy() (consts field k_single_memo; every theorem of this file is quantified over K, hence over both):
    they differ only where the USER aliased two entries of one object (m.mine = m.names); both copies equal the original at copy
    time and share nothing with it; the same later append tells them apart and reaches the original in neither case *)
@@ -328,3 +367,7 @@ Print Assumptions C11_linker_history_example.
 Print Assumptions C11_init_leaves_class_and_others.
 Print Assumptions C11_linker_init_shares_only_submodels.
 Print Assumptions C11_linker_init_example.
+Print Assumptions C11_operations_use_fresh_sources.
+Print Assumptions C11_forest_has_unique_paths.
+Print Assumptions C11_operations_create_no_internal_alias.
+Print Assumptions C11_no_internal_alias_example.
